@@ -275,7 +275,7 @@ def scan_trusted(gen_path):
 # replay crate (real /repo code): witness search and bounded enumerations
 
 
-def replay_bin():
+def replay_bin(profile="release"):
     tdir = os.path.join(BUILD, "replay-target")
     rdir = os.path.join(VERIF, "replay")
     lock = os.path.join(rdir, "Cargo.lock")
@@ -286,14 +286,14 @@ def replay_bin():
     except Exception:
         pass
     env = {"RUSTFLAGS": "--cfg %s" % GUARD, "CARGO_TARGET_DIR": tdir}
-    rc, o, e, w = sh(["cargo", "build", "--release", "--offline"], cwd=rdir, env=env, timeout=1500)
+    rc, o, e, w = sh(["cargo", "build", "--profile", profile, "--offline"], cwd=rdir, env=env, timeout=1500)
     if rc != 0:
         raise Inconclusive("tool-error", "replay crate does not build against /repo: " + e[-3000:])
-    return os.path.join(tdir, "release", "replay")
+    return os.path.join(tdir, profile, "replay")
 
 
-def run_replay(args, timeout=1200):
-    b = replay_bin()
+def run_replay(args, timeout=1200, profile="release"):
+    b = replay_bin(profile)
     rc, o, e, w = sh([b] + args, timeout=timeout)
     try:
         j = json.loads(o)
@@ -611,7 +611,9 @@ def decide(pid, tier, seed, t0):
     enum_samples = []
     for e in P.get("enum", []):
         args = [e["name"], "--tier", tier, "--seed", str(seed)] + e.get("args", [])
-        r = run_replay(args, timeout=e.get("timeout", 1500))
+        r = run_replay(args, timeout=e.get("timeout", 1500), profile=e.get("profile", "release"))
+        if e.get("profile"):
+            r["bound"] = (r.get("bound", "") + " [built with profile %s: debug assertions and overflow checks OFF]" % e["profile"])
         if r.get("aborted") and e.get("abort_props") is not None and pid not in e["abort_props"]:
             # a crash of the real crate inside an enumeration that serves this property only as a side check:
             # reported by the properties the enumeration primarily serves, undecided here
@@ -620,7 +622,7 @@ def decide(pid, tier, seed, t0):
         enum_evals += r.get("evaluations", 0)
         enum_distinct += r.get("distinct_nontrivial", 0)
         enum_samples += r.get("samples", [])[:3]
-        bounded.append({"check": "enum:" + e["name"], "bound": r.get("bound", e.get("bound", "?")), "engine": "concrete enumeration on the real crate (replay/)",
+        bounded.append({"check": "enum:" + e["name"] + (("@" + e["profile"]) if e.get("profile") else ""), "bound": r.get("bound", e.get("bound", "?")), "engine": "concrete enumeration on the real crate (replay/)",
                         "result": "failed" if r.get("failures") else "passed", "evaluations": r.get("evaluations", 0), "wall_s": round(r["wall_s"], 1)})
         known_seen = set()
         for fl in r.get("failures", []):
